@@ -1,5 +1,6 @@
 """C20 - checked signed addition is exact."""
 ID = "C20"
+AREA = "add"
 COQ_TARGETS = ["theories/Props/C20.vo"]
 REQUIRES = ["From Coq Require Import ZArith Bool.", "From MS Require Import Gen.Kernels Props.C20.", "Open Scope Z_scope."]
 COQCHK = ["MS.Props.C20"]
